@@ -91,7 +91,7 @@ def jAnalysis : Except Err (Option Analysis) → Json
         | some m => jList (jList jNat) m)]
 
 /-- the selected sub-table itself (`get(**kwargs)` then `filter_by_distance`): pair indices, counts, paired rows -/
-def jSelection (t : Table) (s : Sel) (d : Option (Rat × Rat)) : Json :=
+def jSelection (labels : List String) (t : Table) (s : Sel) (d : Option (Rat × Rat)) : Json :=
   match selectTable t s d with
   | .error e => Json.mkObj [("err", e)]
   | .ok df => Json.mkObj [
@@ -103,6 +103,8 @@ def jSelection (t : Table) (s : Sel) (d : Option (Rat × Rat)) : Json :=
       ("num", Json.mkObj [("gt", jNat (getNumGroundTruth df)), ("est", jNat (getNumEstimation df)),
         ("tp", jNat (getNumTP df)), ("fp", jNat (getNumFP df)), ("tn", jNat (getNumTN df)),
         ("fn", jNat (getNumFN df))]),
+      -- the index (row / column labels) of the confusion matrix of this selection
+      ("cm_labels", jList Json.str (confusionIndex labels df)),
       ("paired", jNat (getPairResults df).length)]
 
 def jStatus (s : GtStatus) : Json :=
@@ -113,6 +115,53 @@ def jPt (p : Rat × Rat) : Json := Json.arr #[jRat p.1, jRat p.2]
 
 def jPairIds (p : Pair) : Json :=
   Json.arr #[p.est.uuid, match p.gt with | none => Json.null | some g => Json.str g.uuid]
+
+
+/-! ### additions: raw objects in either frame (`raw_rows`), status rates -/
+
+def getRawObj (j : Json) : Except String RawObj := do
+  let fr ← getStr j "frame"
+  let frame ← match fr with
+    | "base_link" => pure FrameId.baseLink
+    | "map" => pure FrameId.map
+    | o => throw s!"bad frame {o}"
+  pure { frame := frame, uuid := ← getStr j "u", label := ← getStr j "l",
+         pos := ⟨← getRat j "x", ← getRat j "y", ← getRat j "z"⟩, yaw := ← getRat j "yaw",
+         width := ← getRat j "w", length := ← getRat j "len", vx := ← getOptRat j "vx", vy := ← getOptRat j "vy" }
+
+def getOptRawObj (j : Json) : Except String (Option RawObj) :=
+  match j with
+  | .null => pure none
+  | _ => (getRawObj j).map some
+
+def getRawPair (j : Json) : Except String RawPair := do
+  match j with
+  | .arr a =>
+    if h : a.size = 2 then pure { est := ← getRawObj a[0], gt := ← getOptRawObj a[1] }
+    else throw "pair must have two entries"
+  | _ => throw "pair must be an array"
+
+def getPose (j : Json) : Except String FrameChange.Pose := do
+  pure { rot := ⟨← getRat j "c", ← getRat j "s"⟩, tau := ← getRat j "tau",
+         t := ⟨← getRat j "x", ← getRat j "y", ← getRat j "z"⟩ }
+
+def getRawFrame (j : Json) : Except String RawFrame := do
+  pure { ego := ← getPose (← j.getObjVal? "ego"), frameNum := ← getNat j "n",
+         tp := ← (← getArr j "tp").toList.mapM getRawPair, fp := ← (← getArr j "fp").toList.mapM getRawPair,
+         tn := ← (← getArr j "tn").toList.mapM getRawObj, fn := ← (← getArr j "fn").toList.mapM getRawObj,
+         critical := ← (← getArr j "critical").toList.mapM getRawObj }
+
+def jRate : Option Rat → Json
+  | none => Json.str "inf"
+  | some r => jRat r
+
+def jStatusRates (s : GtStatus) : Json :=
+  Json.mkObj [("uuid", s.uuid), ("rates", jList (fun (p : Status × Option Rat) => jRate p.2) s.statusRates)]
+
+def jSceneRates (l : List GtStatus) : Json :=
+  match sceneRates l with
+  | none => Json.str "inf"
+  | some (a, b, c, d) => Json.arr #[jRat a, jRat b, jRat c, jRat d]
 
 def handle : Json → Except String Json := fun j => do
   let op ← getStr j "op"
@@ -146,9 +195,13 @@ def handle : Json → Except String Json := fun j => do
           ("tp", jExceptNat (numTP er t)), ("fp", jExceptNat (numFP er t)), ("tn", jExceptNat (numTN er t)),
           ("fn", jExceptNat (numFN er t))]),
         ("analyses", jList (fun (sd : Sel × Option (Rat × Rat)) => jAnalysis (analyze labels t sd.1 sd.2)) sels),
-        ("selections", jList (fun (sd : Sel × Option (Rat × Rat)) => jSelection t sd.1 sd.2) sels),
+        ("selections", jList (fun (sd : Sel × Option (Rat × Rat)) => jSelection labels t sd.1 sd.2) sels),
         ("status", Json.mkObj [("scenes", jList (fun fs => jList jStatus (getObjectStatus fs)) scenes),
-          ("all", jList jStatus (getObjectStatus scenes.flatten))])])
+          ("all", jList jStatus (getObjectStatus scenes.flatten))]),
+        ("status_rates", Json.mkObj [("scenes", jList (fun fs => jList jStatusRates (getObjectStatus fs)) scenes),
+          ("all", jList jStatusRates (getObjectStatus scenes.flatten))]),
+        ("scene_rates", Json.mkObj [("scenes", jList (fun fs => jSceneRates (getObjectStatus fs)) scenes),
+          ("all", jSceneRates (getObjectStatus scenes.flatten)), ("empty", jSceneRates [])])])
   | "passfail" =>
     let n ← getNat j "n"
     let critical ← getObjs j "critical"
@@ -160,6 +213,24 @@ def handle : Json → Except String Json := fun j => do
     let f := passFail n critical results
     pure (Json.mkObj [("tp", jList jPairIds f.tp), ("fp", jList jPairIds f.fp),
       ("tn", jList (fun (o : Obj) => Json.str o.uuid) f.tn), ("fn", jList (fun (o : Obj) => Json.str o.uuid) f.fn)])
+  | "raw_rows" =>
+    -- the table built from the objects AS GIVEN (base_link or map frame) with the frames' ego poses
+    let division ← getNat j "division"
+    let maxX ← getRat j "max_x"
+    let maxY ← getRat j "max_y"
+    let scenes ← (← getArr j "scenes").toList.mapM (fun s => do
+      match s with
+      | .arr a => a.toList.mapM getRawFrame
+      | _ => throw "scene must be an array")
+    match generateAreaPoints division maxX maxY with
+    | .error e => pure (Json.mkObj [("err", e)])
+    | .ok areas =>
+      let t := (addAllRaw areas scenes).table
+      let areaErr := scenes.any fun fs => fs.any fun f =>
+        (f.tp ++ f.fp).any (fun p => (getAreaIdxRaw areas f.ego p.est).toBool == false) ||
+        (f.tn ++ f.fn).any (fun o => (getAreaIdxRaw areas f.ego o).toBool == false)
+      pure (Json.mkObj [("area_error", areaErr), ("rows", jList jRow t),
+        ("dist2", jList (fun (r : RowPair) => Json.arr #[jOptRat (r.gt.map (·.obj.dist2)), jOptRat (r.est.map (·.obj.dist2))]) t)])
   | o => throw s!"unknown op {o}"
 
 end PEval.Driver.C19
